@@ -605,6 +605,12 @@ class Interp:
         wb = self.facts.body(res) if res else None
         if wb is None and name != res:
             wb = self.facts.body(name)
+        if wb is not None and wb.derived and args:
+            # a derived impl (Ord / PartialEq / Clone / Hash ...) on a value the abstract domain keeps atomic (a stamp, a key):
+            # the derived body would take the atom apart; its meaning is the trait operation on the atom
+            a0_ = self.deref_all(args[0])
+            if a0_ is not None and a0_[0] in ('ts', 'dur', 'key', 'sym', 'bv', 'addr', 'node'):
+                return self.model_call(name, args, t, depth)
         if wb is not None and wb.kind in ('fn', 'method', 'assoc_fn', 'function') and wb.crate in self.facts.crates:
             return self.run_body(wb, args, depth + 1, mono)
         if wb is not None and wb.kind == 'coroutine' and wb.crate in self.facts.crates and len(args) == 2:
